@@ -587,10 +587,8 @@ Proof.
   all: try (intros t0 i0 Hin; cbn [In] in Hin;
             repeat match goal with H : _ \/ _ |- _ => destruct H as [H|H]; [try discriminate H; try (injection H as ? ? ?; subst; congruence)|] end;
             eapply Olog; eassumption).
-Show.
-Abort.
-(*STOP*)
-
+  all: split; [discriminate|assumption].
+Qed.
 
 Lemma exec_own sched : forall c, OwnInv c -> OwnInv (exec sched c).
 Proof. induction sched as [|t r IH]; intros c I; cbn [exec]; [exact I|]. apply IH, step_own, I. Qed.
@@ -620,7 +618,243 @@ Lemma step_thread_measure t th s th' s' : step_thread t th s = (th', s') ->
 Proof.
   intros ST. destruct th as [pg dn p lv nx]. destruct s as [cl st nf lg].
   split_step ST.
-  1: { left. cbn. auto. }
+  all: try solve [left; cbn; auto].
   all: right; unfold measure; red_rec; cbn [tl length]; try lia.
   all: destruct pg; cbn [tl length]; lia.
 Qed.
+
+Lemma step_threads_other t c j : j <> t -> nth_error (threads (step t c)) j = nth_error (threads c) j.
+Proof.
+  intros H. unfold step. destruct (nth_error (threads c) t) eqn:E; [|reflexivity].
+  destruct (step_thread t t0 (sh c)). cbn [threads]. apply nth_upd_other. auto.
+Qed.
+
+Lemma step_threads_length t c : length (threads (step t c)) = length (threads c).
+Proof.
+  unfold step. destruct (nth_error (threads c) t) eqn:E; [|reflexivity].
+  destruct (step_thread t t0 (sh c)). cbn [threads]. apply upd_length.
+Qed.
+
+Lemma step_same_measure t c th : nth_error (threads c) t = Some th ->
+  exists th', nth_error (threads (step t c)) t = Some th'
+              /\ (measure th' < measure th \/ (measure th = 0 /\ th' = th)).
+Proof.
+  intros E. unfold step. rewrite E. destruct (step_thread t th (sh c)) as [th' s'] eqn:ST. cbn [threads].
+  exists th'. split; [eapply nth_upd_same; eassumption|].
+  apply step_thread_measure in ST. intuition.
+Qed.
+
+Lemma exec_app a : forall b c, exec (a ++ b) c = exec b (exec a c).
+Proof. induction a as [|t r IH]; intros b c; cbn [app exec]; [reflexivity|apply IH]. Qed.
+
+Lemma exec_length sched : forall c, length (threads (exec sched c)) = length (threads c).
+Proof. induction sched as [|t r IH]; intros c; cbn [exec]; [reflexivity|]. rewrite IH. apply step_threads_length. Qed.
+
+Lemma repeat_measure n : forall t c th, nth_error (threads c) t = Some th -> measure th <= n ->
+  exists th', nth_error (threads (exec (repeat t n) c)) t = Some th' /\ measure th' = 0.
+Proof.
+  induction n as [|n IH]; intros t c th E M; cbn [repeat exec].
+  - exists th. split; [assumption|lia].
+  - destruct (step_same_measure _ _ _ E) as (th' & E' & M'). apply IH with th'; [assumption|].
+    destruct M' as [?|[? ->]]; lia.
+Qed.
+
+Lemma exec_repeat_other n t : forall c j, j <> t ->
+  nth_error (threads (exec (repeat t n) c)) j = nth_error (threads c) j.
+Proof.
+  induction n as [|n IH]; intros c j H; cbn [repeat exec]; [reflexivity|].
+  rewrite IH by assumption. apply step_threads_other. assumption.
+Qed.
+
+Lemma exec_keeps_finished sched : forall c j th, nth_error (threads c) j = Some th -> measure th = 0 ->
+  nth_error (threads (exec sched c)) j = Some th.
+Proof.
+  induction sched as [|t r IH]; intros c j th E M; cbn [exec]; [assumption|].
+  apply IH; [|assumption]. destruct (Nat.eq_dec j t) as [->|Hne].
+  - destruct (step_same_measure _ _ _ E) as (th' & E' & [?|[_ ->]]); [lia|assumption].
+  - rewrite step_threads_other by assumption. assumption.
+Qed.
+
+Lemma completion_from_all suffix : forall k c,
+  (forall j th, nth_error suffix j = Some th -> nth_error (threads c) (k + j) = Some th) ->
+  length (threads c) = k + length suffix ->
+  (forall j th, j < k -> nth_error (threads c) j = Some th -> measure th = 0) ->
+  forall j th, nth_error (threads (exec (completion_from k suffix) c)) j = Some th -> measure th = 0.
+Proof.
+  induction suffix as [|th0 r IH]; intros k c Hsuf Hlen Hfin j th Hj; cbn [completion_from exec] in Hj.
+  - apply (Hfin j th); [|assumption]. cbn in Hlen.
+    assert (j < length (threads c)) by (apply nth_error_Some; congruence). lia.
+  - rewrite exec_app in Hj.
+    set (c1 := exec (repeat k (steps_bound th0)) c) in *.
+    revert j th Hj. apply (IH (S k) c1).
+    + intros j th Hr. unfold c1. rewrite exec_repeat_other by lia.
+      replace (S k + j) with (k + S j) by lia. apply Hsuf. exact Hr.
+    + unfold c1. rewrite exec_length. cbn [length] in Hlen. lia.
+    + intros j th Hlt Hj.
+      assert (E0 : nth_error (threads c) k = Some th0).
+      { replace k with (k + 0) by lia. apply Hsuf. reflexivity. }
+      destruct (Nat.eq_dec j k) as [->|Hne].
+      * destruct (repeat_measure (steps_bound th0) k c th0 E0 (measure_bound th0)) as (th' & E' & M').
+        fold c1 in E'. congruence.
+      * assert (Hjk : j < k) by lia.
+        destruct (nth_error (threads c) j) as [thj|] eqn:Ej.
+        -- pose proof (Hfin j thj Hjk Ej) as Mj.
+           pose proof (exec_keeps_finished (repeat k (steps_bound th0)) c j thj Ej Mj) as K.
+           fold c1 in K. congruence.
+        -- apply nth_error_None in Ej. lia.
+Qed.
+
+(** whatever the schedule did, after the run-to-completion phase every thread has finished *)
+Lemma run_all_finished sched c : all_finished (run sched c) = true.
+Proof.
+  unfold run, all_finished, completion. set (c1 := exec sched c).
+  apply forallb_forall. intros th Hin. apply In_nth_error in Hin as (j & Hj).
+  apply measure_0_finished.
+  apply (completion_from_all (threads c1) 0 c1) with (j := j); auto.
+  - intros ? ? ?; lia.
+Qed.
+
+Lemma all_finished_quiescent c : all_finished c = true -> quiescent c.
+Proof.
+  unfold all_finished, quiescent. rewrite forallb_forall. intros H th Hin. specialize (H th Hin).
+  unfold finished in H. destruct (pc th); try discriminate. reflexivity.
+Qed.
+
+Lemma run_inv fd0 progs sched : fd0 <> FD_INVALID -> Inv fd0 (run sched (init fd0 progs)).
+Proof. intros H. unfold run. apply exec_inv, exec_inv, inv_init, H. Qed.
+
+Lemma run_is_exec sched c : run sched c = exec (sched ++ completion (exec sched c)) c.
+Proof. unfold run. rewrite exec_app. reflexivity. Qed.
+
+(** * The property, as stated in Properties/C12.v *)
+
+(** take_raw_fd calls that returned Some, and close calls, in the order they happened *)
+Definition successful_takes (c : cfg) : list event := filter is_take_some (trace c).
+Definition closes (c : cfg) : list event := filter is_close (trace c).
+(** the successful compare_exchange of a take_raw_fd (at most one exists) *)
+Definition take_swaps (c : cfg) : list event := filter is_takecas (trace c).
+(** Arc decrements that brought the strong count to 0 (at most one exists) *)
+Definition last_drops (c : cfg) : list event := filter is_deczero (trace c).
+
+Lemma filter_nil_cnt p l : filter p l = [] <-> cnt p l = 0.
+Proof. rewrite cnt_filter_length. destruct (filter p l); cbn; split; intros; try reflexivity; try discriminate. Qed.
+
+(** Safety, for every prefix of every interleaving (no assumption on the programs: an operation
+    on a handle the thread does not own is skipped by the model; [ownership_respected] is what
+    makes [c12_complete] below talk about all operations). *)
+Lemma c12_safety fd0 progs sched : fd0 <> FD_INVALID ->
+  let c := exec sched (init fd0 progs) in
+  (* (a) at most one take returns Some, it returns the original descriptor (so does every get),
+         and it is the call that performed the one successful compare_exchange *)
+  length (successful_takes c) <= 1
+  /\ length (take_swaps c) <= 1
+  /\ length (successful_takes c) <= length (take_swaps c)
+  /\ (forall t i v, In (EvRet t i (RTake (Some v))) (trace c) -> v = fd0)
+  /\ (forall t i v, In (EvRet t i (RGet (Some v))) (trace c) -> v = fd0)
+  (* (b) every get/take/dup whose first atomic action comes after that compare_exchange reports gone *)
+  /\ (forall pre tk v mid t i mid2 r post,
+        trace c = pre ++ EvTakeCas tk v :: mid ++ EvStart t i :: mid2 ++ EvRet t i r :: post -> gone r)
+  /\ (forall pre t i r post, trace c = pre ++ EvRet t i r :: post -> In (EvStart t i) pre)
+  (* (e) never two closes; only fd0 is ever closed; dup results are fresh numbers the library never closes *)
+  /\ length (closes c) <= 1
+  /\ (forall t fd, In (EvClose t fd) (trace c) -> fd = fd0)
+  /\ (forall t s n, In (EvDupSys t s n) (trace c) ->
+        s = fd0 /\ n <> fd0 /\ forall t' fd, In (EvClose t' fd) (trace c) -> fd <> n)
+  (* (c) the close is made by the thread whose decrement brought the strong count to 0, after
+         that decrement; there is at most one such decrement; not before: while a handle is
+         alive nothing is closed *)
+  /\ (forall pre t fd post, trace c = pre ++ EvClose t fd :: post -> In (EvDecZero t) pre)
+  /\ length (last_drops c) <= 1
+  /\ (strong (sh c) = 0 <-> all_handles_dropped c)
+  /\ (~ all_handles_dropped c -> closes c = [])
+  (* (d) if a take succeeded the library never closes *)
+  /\ (take_swaps c <> [] -> closes c = [])
+  /\ (successful_takes c <> [] -> closes c = []).
+Proof.
+  intros Hfd c. pose proof (inv_reach fd0 progs sched Hfd) as I. fold c in I.
+  destruct (take_at_most_once _ _ I) as (A1 & A2 & A3 & A4).
+  pose proof (take_some_needs_cas _ _ I) as A5.
+  destruct (close_facts _ _ I) as (C1 & C2 & C3 & C4 & C5 & C6 & C7).
+  destruct (strong_is_live_handles _ _ I) as (S1 & S2).
+  unfold successful_takes, take_swaps, closes, last_drops.
+  rewrite <- !cnt_filter_length.
+  repeat match goal with |- _ /\ _ => split end; auto.
+  - apply (after_take_gone _ _ I).
+  - apply (ret_has_start _ _ I).
+  - intros H. apply filter_nil_cnt. apply C5.
+    destruct (strong (sh c)) eqn:E; [|lia]. exfalso. apply H. apply S2. reflexivity.
+  - intros H. apply filter_nil_cnt. apply C6.
+    destruct (cnt is_takecas (trace c)) eqn:E; [|lia]. apply filter_nil_cnt in E. contradiction.
+  - intros H. apply filter_nil_cnt. apply C6.
+    destruct (cnt is_take_some (trace c)) eqn:E; [|lia]. apply filter_nil_cnt in E. contradiction.
+Qed.
+
+(** Completed runs: [run] = the schedule followed by the run-to-completion phase
+    (= [exec] on a longer schedule, [run_is_exec], so [c12_safety] applies to it too). *)
+Lemma c12_complete fd0 progs sched : fd0 <> FD_INVALID -> progs <> [] ->
+  ownership_respected progs = true ->
+  let c := run sched (init fd0 progs) in
+  all_finished c = true
+  (* every operation of every program was executed on a handle its thread owned *)
+  /\ (forall t i, ~ In (EvRet t i RInvalid) (trace c))
+  (* (c) nobody took it and every handle was dropped: close(fd0) exactly once *)
+  /\ (take_swaps c = [] -> all_handles_dropped c -> exists t, closes c = [EvClose t fd0])
+  (* (c) not all handles dropped: not closed *)
+  /\ (~ all_handles_dropped c -> closes c = [])
+  (* (d) somebody took it: exactly one take returned Some, nothing closed *)
+  /\ (take_swaps c <> [] -> length (successful_takes c) = 1 /\ closes c = []).
+Proof.
+  intros Hfd Hne Hown c.
+  pose proof (run_inv fd0 progs sched Hfd) as I. fold c in I.
+  pose proof (run_all_finished sched (init fd0 progs)) as F. fold c in F.
+  pose proof (all_finished_quiescent _ F) as Q.
+  assert (NE : threads c <> []).
+  { intros E. apply (f_equal (@length thread)) in E. unfold c, run in E.
+    rewrite !exec_length in E. cbn in E. rewrite map_length in E. destruct progs; [contradiction|discriminate]. }
+  destruct (close_exactly_once _ _ I Q NE) as (X1 & X2).
+  destruct (close_facts _ _ I) as (C1 & C2 & C3 & C4 & C5 & C6 & C7).
+  destruct (strong_is_live_handles _ _ I) as (S1 & S2).
+  destruct (take_at_most_once _ _ I) as (A1 & A2 & _).
+  unfold successful_takes, take_swaps, closes.
+  repeat match goal with |- _ /\ _ => split end.
+  - exact F.
+  - intros t i H. apply In_trace in H.
+    destruct (own_init progs Hown) as (_ & O). specialize (O fd0).
+    unfold c, run in H. apply (o_log _ (exec_own _ _ (exec_own _ _ O)) t i H).
+  - intros NT AD. apply filter_nil_cnt in NT. specialize (X1 NT AD).
+    rewrite cnt_filter_length in X1.
+    destruct (filter is_close (trace c)) as [|e [|e' r]] eqn:E; cbn in X1; try lia.
+    assert (Hin : In e (filter is_close (trace c))) by (rewrite E; left; reflexivity).
+    apply filter_In in Hin as (Hin & Hc). destruct e; try discriminate.
+    exists t. rewrite (C2 _ _ Hin). reflexivity.
+  - intros H. apply filter_nil_cnt. apply C5.
+    destruct (strong (sh c)) eqn:E; [|lia]. exfalso. apply H. apply S2. reflexivity.
+  - intros H. rewrite <- cnt_filter_length.
+    assert (0 < cnt is_takecas (trace c)).
+    { destruct (cnt is_takecas (trace c)) eqn:E; [|lia]. apply filter_nil_cnt in E. contradiction. }
+    split; [lia|]. apply filter_nil_cnt. apply C6. assumption.
+Qed.
+
+(** ** The hypotheses are inhabited; the statements are not vacuous *)
+
+Example c12_ex_hyps : (100 <> FD_INVALID)%Z /\ ex3_progs <> [] /\ ownership_respected ex3_progs = true.
+Proof. repeat split; [discriminate|discriminate]. Qed.
+
+(* (b)'s premise occurs: thread 0 takes (load, compare_exchange), then thread 1 starts its get *)
+Example c12_ex_after_take :
+  trace (exec [0; 0; 1] (init 100 ex3_progs))
+  = [EvStart 0 0] ++ EvTakeCas 0 100 :: [] ++ EvStart 1 0 :: [] ++ EvRet 1 0 (RGet None) :: [].
+Proof. vm_compute. reflexivity. Qed.
+
+(* nobody takes, everybody drops: one close, by thread 1 whose decrement was the last *)
+Example c12_ex_close :
+  let c := run [0; 0; 1] (init 7 [ [Dup 0; Drop 0]; [Get 0; Drop 0] ]) in
+  take_swaps c = [] /\ all_finished c = true /\ strong (sh c) = 0
+  /\ closes c = [EvClose 1 7] /\ last_drops c = [EvDecZero 1].
+Proof. vm_compute. repeat split; reflexivity. Qed.
+
+(* somebody takes: no close although everything is dropped *)
+Example c12_ex_taken :
+  let c := run [1; 0; 1; 0; 1; 2; 2; 0] (init 100 ex3_progs) in
+  successful_takes c = [EvRet 0 0 (RTake (Some 100%Z))] /\ closes c = [] /\ strong (sh c) = 0.
+Proof. vm_compute. repeat split; reflexivity. Qed.
